@@ -398,6 +398,18 @@ def selfcheck():
     ok = ok and p.returncode == 0
     w = build_world()
     print('contracts loaded:', len(w.contracts))
+    # every property module must import, name only registered contracts, and have its stand-in present
+    n = 0
+    for f in sorted(os.listdir(os.path.join(VERIF, 'props'))):
+        if not (f.startswith('C') and f.endswith('.py')):
+            continue
+        mod = importlib.import_module('props.' + f[:-3])
+        for q in mod.FUNCTIONS:
+            if q not in w.contracts:
+                print('props/%s names an unregistered contract %s' % (f, q))
+                ok = False
+        n += 1
+    print('property modules loaded:', n)
     return 0 if ok else 3
 
 
